@@ -9,7 +9,7 @@
     Printer into every later parse) cannot be repaired — a pinned test depends on it — and is characterised
     exactly: C12_math_capture_refuted, C12_parse_after_equal_iff. *)
 From Coq Require Import String Ascii List Bool Arith.
-From LC Require Import GlobalDefs GlobalProofs.
+From LC Require Import GlobalDefs GlobalProofs GlobalHistoryProofs.
 From LCGen Require GlobalSites.
 Import ListNotations.
 Local Open Scope string_scope.
@@ -347,3 +347,54 @@ Theorem C12_services_preserve_every_observation : forall (X : Type) (f : observa
   f (content (run w (actions_of (next_id w) old (service_writes true true s))) i) = f (content w i).
 Proof. exact GlobalProofs.services_preserve_every_observation. Qed.
 Print Assumptions C12_services_preserve_every_observation.
+
+(** ** 9. History independence at full strength
+
+    For every service class of the library but the Annotator, every implementation of a top-level call that sees the object
+    through its member table, every initial state and EVERY history of calls on one object: the result of every call of the
+    history is the result of that call on a fresh object.  The premise is the decidable check [class_ok] evaluated by the
+    kernel on the member table regenerated from the sources. *)
+Theorem C12_table_premise_holds : forallb (class_ok GlobalSites.instance_members) pure_service_classes = true.
+Proof. exact GlobalHistoryProofs.table_premise_holds. Qed.
+Print Assumptions C12_table_premise_holds.
+
+Theorem C12_result_history_independent :
+  forall (c : string), In c pure_service_classes ->
+  forall (A R : Type) (init : istate) (code : A -> list nat -> R * list (string * nat)),
+    let cls := service_cls GlobalSites.instance_members c in
+    let body := scoped_body A R (members_of GlobalSites.instance_members c) cls code in
+    forall (h : list A),
+      results A R cls init body init h = map (fresh_result A R cls init body) h.
+Proof. exact GlobalHistoryProofs.result_history_independent. Qed.
+Print Assumptions C12_result_history_independent.
+
+(** the same for arbitrary call bodies, under the two facts about the code that [scoped_body] has by construction;
+    call number k of any history *)
+Theorem C12_result_k_history_independent :
+  forall (A R : Type) (cls : string -> mclass) (init : istate) (body : A -> istate -> R * istate),
+    (forall a s m, is_fixed (cls m) = true -> snd (body a s) m = s m) ->
+    (forall a s1 s2, (forall m, is_cache (cls m) = false -> s1 m = s2 m) -> fst (body a s1) = fst (body a s2)) ->
+    (forall m, is_reset (cls m) || is_fixed (cls m) || is_cache (cls m) = true) ->
+    forall h k x, nth_error h k = Some x ->
+                  nth_error (results A R cls init body init h) k = Some (fresh_result A R cls init body x).
+Proof. exact GlobalHistoryProofs.result_k_history_independent. Qed.
+Print Assumptions C12_result_k_history_independent.
+
+(** non-vacuity: a Parser whose call switches to "1.x mode" and never back; with the real table (the member is reset at the
+    head) the 2.0 documents parsed after 1.x ones get the fresh result *)
+Example C12_history_independence_nonvacuous :
+  results nat nat (service_cls GlobalSites.instance_members "Parser::ParserImpl") (fun _ => 0)
+          (scoped_body nat nat (members_of GlobalSites.instance_members "Parser::ParserImpl")
+                       (service_cls GlobalSites.instance_members "Parser::ParserImpl") sticky_parser_code)
+          (fun _ => 0) [1; 0; 1; 0]
+  = [11; 0; 11; 0].
+Proof. exact GlobalHistoryProofs.history_independence_nonvacuous. Qed.
+Print Assumptions C12_history_independence_nonvacuous.
+
+(** ... and the same call code over a table in which that member is not reset is history dependent: the premise is needed *)
+Theorem C12_unreset_member_refuted :
+  let cls := fun m : string => if String.eqb m "mParsing1XVersion" then MUnknown else MConst in
+  let body := scoped_body nat nat ["mParser"; "mParsing1XVersion"; "mParsing20Version"] cls sticky_parser_code in
+  results nat nat cls (fun _ => 0) body (fun _ => 0) [1; 0] <> map (fresh_result nat nat cls (fun _ => 0) body) [1; 0].
+Proof. exact GlobalHistoryProofs.unreset_member_refuted. Qed.
+Print Assumptions C12_unreset_member_refuted.
